@@ -121,6 +121,10 @@ fn faults(labels: &[String], rng: &mut Rng) -> Vec<(&'static str, Vec<Node>)> {
         ("relative-target-out-of-range", raw(*rng.pick(&["\trjmp pc+3000", "\tbreq pc+100", "\tbrne pc-100", "\trcall pc-2100"]))),
         ("operand-count", raw(*rng.pick(&["\tadd r1", "\tnop r1", "\tldi r16", "\tmov r1, r2, r3"]))),
         ("undefined-symbol-in-instruction", raw(*rng.pick(&["\tldi r16, no_such_symbol", "\tlds r0, no_such_symbol", "\trjmp no_such_label", "\tldi r16, low(no_such_symbol)"]))),
+        // the undefined name sits where it cannot change the value: it is still an undefined name
+        ("undefined-symbol-in-dead-operand", raw(*rng.pick(&["\tldi r16, 0 && no_such_symbol", "\tldi r16, 5 || no_such_symbol", "\tldi r16, 0 * no_such_symbol", ".db 1, 0 && no_such_symbol", ".dw 1 || no_such_symbol", ".set fresh_set_var = 0 && no_such_symbol", "\tldi r16, no_such_symbol & 0", "\tldi r16, (1 || no_such_symbol) + 1", ".dw no_such_symbol - no_such_symbol", "\tldi r16, 0 && (1 / 0)", ".db 1 || (1 % 0)"]))),
+        ("undefined-symbol-in-dead-operand-of-if", vec![Node::Cond { arms: vec![Arm { cond: Cond::Expr(E::bin(Bin::LAnd, E::Lit(0, 0), E::Sym("no_such_symbol".into()))), body: vec![] }], else_body: None }]),
+        ("undefined-symbol-in-dead-operand-of-if", vec![Node::Cond { arms: vec![Arm { cond: Cond::Expr(E::bin(Bin::LOr, E::Lit(1, 0), E::Sym("no_such_symbol".into()))), body: vec![] }], else_body: None }]),
         ("undefined-alias", raw("\tinc no_such_alias")),
         ("undefined-symbol-in-data", raw(*rng.pick(&[".db no_such_symbol", ".dw no_such_symbol + 1", ".dd 1, no_such_symbol", ".dq high(no_such_symbol)"]))),
         ("undefined-symbol-in-set", raw(*rng.pick(&[".set fresh_set_var = no_such_symbol", ".set fresh_set_var = 1 + no_such_symbol"]))),
@@ -381,7 +385,7 @@ pub fn run(ctx: &Ctx) -> i32 {
     });
     fw::finish(
         ctx,
-        "valid base programs of 5-40 lines (labels, instructions, data, .equ, .set, conditional blocks, three segments) x every insertion position on the assembling path (top level and inside the taken branch) x 21 kinds of single-line fault (syntax, unknown mnemonic/macro, register<->expression confusion, out-of-range immediate/register class/port/bit/displacement/relative target, operand count, undefined symbol in instruction/alias/data/.set/.if, duplicate label, out-of-range data, string in word directive, .error, division by zero): build must fail with an error containing the token `line: p`; plus 3 message placements per base (.message/.warning at top level and inside taken/untaken branches): images unchanged, message list equals the expected (text, line, order, kind distinguishable); distinct_nontrivial = distinct base programs; counters fault:* = faulty builds per kind",
+        "valid base programs of 5-40 lines (labels, instructions, data, .equ, .set, conditional blocks, three segments) x every insertion position on the assembling path (top level and inside the taken branch) x 23 kinds of single-line fault (syntax, unknown mnemonic/macro, register<->expression confusion, out-of-range immediate/register class/port/bit/displacement/relative target, operand count, undefined symbol in instruction/alias/data/.set/.if - also in an operand that cannot change the value (0 && x, 1 || x, 0 * x) -, duplicate label, out-of-range data, string in word directive, .error, division by zero): build must fail with an error containing the token `line: p`; plus 3 message placements per base (.message/.warning at top level and inside taken/untaken branches): images unchanged, message list equals the expected (text, line, order, kind distinguishable); distinct_nontrivial = distinct base programs; counters fault:* = faulty builds per kind",
         &["every program starts with a comment line so p >= 2 (PEG errors embed `line: 1`); for a duplicate label either defining line is accepted", "macros are not used (body vs call attribution is not specified)"],
     )
 }
